@@ -28,6 +28,7 @@ type Ctx struct {
 	c17Seen                 int
 	carryNilSeen            int
 	stapASeen               int
+	yzSeen                  int
 	lemmaEntries            map[string]bool // entries analysed with the lemmas
 	lemmasUsed              map[string]bool
 	modular                 map[string]*bounds.ModSpec // functions analysed as entries of their own under a precondition
